@@ -35,10 +35,12 @@ type NormalEstimator struct {
   // parameters
   n        int
   SigmaMin float64
-  // state
+  // state (per thread: sum of weights, mean, and sum of products of
+  // deviations from the mean)
   sum_g     []float64
   sum_m   [][]float64
   sum_s [][][]float64
+  sum_d   [][]float64
   gamma_max float64
 }
 
@@ -91,10 +93,12 @@ func (obj *NormalEstimator) Initialize(p ThreadPool) error {
   obj.sum_g = make(    []float64, p.NumberOfThreads())
   obj.sum_m = make(  [][]float64, p.NumberOfThreads())
   obj.sum_s = make([][][]float64, p.NumberOfThreads())
+  obj.sum_d = make(  [][]float64, p.NumberOfThreads())
   for i := 0; i < p.NumberOfThreads(); i++ {
     obj.sum_g[i] = 0.0
     obj.sum_m[i] = make(  []float64, obj.n)
     obj.sum_s[i] = make([][]float64, obj.n)
+    obj.sum_d[i] = make(  []float64, obj.n)
     for j := 0; j < obj.n; j++ {
       obj.sum_s[i][j] = make([]float64, obj.n)
     }
@@ -108,27 +112,28 @@ func (obj *NormalEstimator) NewObservation(x ConstVector, gamma ConstScalar, p T
     return fmt.Errorf("x has invalid dimension (expected dimension `%d' but data has dimension `%d')", obj.n, x.Dim())
   }
   id := p.GetThreadId()
-  if gamma == nil {
-    obj.sum_g[id] += 1.0
+  g  := 1.0
+  if gamma != nil {
+    g = math.Exp(gamma.GetFloat64() - obj.gamma_max)
+  }
+  if g > 0.0 {
+    // incremental update of the weighted mean and the sum of products of
+    // deviations (computing the covariance as E[x x^T] - E[x] E[x]^T loses all
+    // digits if the mean is large compared to the standard deviation)
+    w := obj.sum_g[id] + g
+    d := obj.sum_d[id]
     for i := 0; i < obj.n; i++ {
-      xi := x.ConstAt(i).GetFloat64()
-      obj.sum_m[id][i] += xi
+      d[i] = x.ConstAt(i).GetFloat64() - obj.sum_m[id][i]
+    }
+    for i := 0; i < obj.n; i++ {
       for j := 0; j < obj.n; j++ {
-        xj := x.ConstAt(j).GetFloat64()
-        obj.sum_s[id][i][j] += xi*xj
+        obj.sum_s[id][i][j] += d[i]*d[j]*obj.sum_g[id]*(g/w)
       }
     }
-  } else {
-    g := math.Exp(gamma.GetFloat64() - obj.gamma_max)
-    obj.sum_g[id] += g
     for i := 0; i < obj.n; i++ {
-      xi := x.ConstAt(i).GetFloat64()
-      obj.sum_m[id][i] += g*xi
-      for j := 0; j < obj.n; j++ {
-        xj := x.ConstAt(j).GetFloat64()
-        obj.sum_s[id][i][j] += g*xi*xj
-      }
+      obj.sum_m[id][i] += d[i]*(g/w)
     }
+    obj.sum_g[id] = w
   }
   return nil
 }
@@ -140,21 +145,32 @@ func (obj *NormalEstimator) estimateParameters() (Vector, Matrix, int) {
   sum_g := obj.sum_g[0]
   sum_m := obj.sum_m[0]
   sum_s := obj.sum_s[0]
+  // merge the partial results of all threads
   for k := 1; k < len(obj.sum_m); k++ {
-    sum_g += obj.sum_g[k]
+    if obj.sum_g[k] == 0.0 {
+      continue
+    }
+    g := sum_g + obj.sum_g[k]
+    d := obj.sum_d[k]
     for i := 0; i < obj.n; i++ {
-      sum_m[i] += obj.sum_m[k][i]
+      d[i] = obj.sum_m[k][i] - sum_m[i]
+    }
+    for i := 0; i < obj.n; i++ {
       for j := 0; j < obj.n; j++ {
-        sum_s[i][j] += obj.sum_s[k][i][j]
+        sum_s[i][j] += obj.sum_s[k][i][j] + d[i]*d[j]*sum_g*(obj.sum_g[k]/g)
       }
     }
+    for i := 0; i < obj.n; i++ {
+      sum_m[i] += d[i]*(obj.sum_g[k]/g)
+    }
+    sum_g = g
   }
   mu := NullDenseFloat64Vector(obj.n)
   si := NullDenseFloat64Matrix(obj.n, obj.n)
   for i := 0; i < obj.n; i++ {
-    mu.At(i).SetFloat64(sum_m[i]/sum_g)
+    mu.At(i).SetFloat64(sum_m[i])
     for j := 0; j < obj.n; j++ {
-      si.At(i,j).SetFloat64(sum_s[i][j]/sum_g - sum_m[i]/sum_g*sum_m[j]/sum_g)
+      si.At(i,j).SetFloat64(sum_s[i][j]/sum_g)
     }
     if s := si.At(i,i).GetFloat64(); math.IsNaN(s) || s < obj.SigmaMin {
       si.At(i,i).SetFloat64(obj.SigmaMin)
@@ -163,6 +179,7 @@ func (obj *NormalEstimator) estimateParameters() (Vector, Matrix, int) {
   obj.sum_g = nil
   obj.sum_m = nil
   obj.sum_s = nil
+  obj.sum_d = nil
   return mu, si, int(math.Round(sum_g))
 }
 
